@@ -68,6 +68,8 @@ type Op struct {
 	ID int    `json:"id"`
 }
 
+var generatorRejects int
+
 type H struct{}
 
 func (H) Name() string { return "chainsim" }
@@ -162,9 +164,13 @@ func (H) Gen(prop string, seed uint64, tier string) *hx.Case {
 	}
 	violP := 0.0
 	var viols []string
+	var c05 []string
 	switch prop {
 	case "C04", "C02":
-		violP, viols = 0.35, ledger.C04Violations
+		violP, viols = 0.4, append(append([]string{}, ledger.C04Violations...), ledger.C04Boundary...)
+	case "C05":
+		violP, c05 = 0.4, ledger.C05Violations
+		viols = []string{"bad-sig", "overspend"}
 	case "C06", "C07", "C11", "C17":
 		violP, viols = 0.12, []string{"bad-sig", "spent-input", "immature", "overspend", "double-in-block"}
 	}
@@ -211,8 +217,16 @@ func (H) Gen(prop string, seed uint64, tier string) *hx.Case {
 			continue
 		}
 		o := ledger.BlockOpts{NTx: r.Pick(15, 25, 25, 15, 10, 5, 5), InBlockChain: r.Chance(0.4)}
-		if r.Chance(violP) && len(viols) > 0 {
-			o.Viol = viols[r.Intn(len(viols))]
+		mut := ""
+		if r.Chance(violP) {
+			if len(c05) > 0 && r.Chance(0.85) {
+				mut = c05[r.Intn(len(c05))]
+				if o.NTx == 0 {
+					o.NTx = 2
+				}
+			} else if len(viols) > 0 {
+				o.Viol = viols[r.Intn(len(viols))]
+			}
 		}
 		// timestamps: usually ~10 minutes apart, sometimes equal to MTP+1, sometimes a 20-minute gap (test-net rule)
 		switch r.Pick(70, 15, 15) {
@@ -225,19 +239,26 @@ func (H) Gen(prop string, seed uint64, tier string) *hx.Case {
 		if !ok {
 			continue
 		}
-		if int64(b.H.Time) > now {
+		if mut != "" {
+			if !m.MutateC05(parent, b, mut, now+int64(len(cfg.Blocks))*30) {
+				continue // could not be constructed here (the block may be half-mutated: drop it)
+			}
+		}
+		if int64(b.H.Time) > now && mut != "time-future" {
 			now = int64(b.H.Time)
 		}
 		n := l.Add(b, 1<<40)
 		if n == nil {
 			continue
 		}
-		if o.Viol != "" && n.Clause == "" {
+		boundary := len(o.Viol) > 3 && o.Viol[:3] == "ok-"
+		if (o.Viol != "" && !boundary || mut != "" && mut != "time-future") && n.Clause == "" {
 			// the generator failed to break the rule it wanted to break: keep the block as a valid one, but say so
-			b.Label = "intended-" + o.Viol + "-but-valid"
+			b.Label = "intended-" + o.Viol + mut + "-but-valid"
+			generatorRejects++
 		}
-		if o.Viol == "" && n.Clause != "" {
-			panic("generator produced an invalid block without intending to: " + n.Clause)
+		if (o.Viol == "" || boundary) && mut == "" && n.Clause != "" {
+			panic("generator produced an invalid block without intending to (" + o.Viol + "): " + n.Clause)
 		}
 		cfg.Blocks = append(cfg.Blocks, b)
 		made = append(made, n)
@@ -403,6 +424,17 @@ func (r *run) compareState(when string) {
 	}
 	r.failedReorg = false
 	if th != r.model.Hash {
+		// is an invalid block part of the node's active chain?  Then that is the finding, not the tip as such.
+		var firstBad *ledger.Node
+		for p := r.l.Nodes[th]; p != nil && p.Blk != nil; p = p.Parent {
+			if p.Clause != "" && p.Clause != "parent-invalid" {
+				firstBad = p
+			}
+		}
+		if firstBad != nil {
+			r.viol(clauseClass(firstBad.Clause), "%s: block %s (height %d, generator label %q) violates %q per the reference ledger and is part of the node's active chain (tip %s height %d)", when, hs(firstBad.Hash), firstBad.Height, firstBad.Blk.Label, firstBad.Clause, hs(th), theight)
+			return
+		}
 		r.viol("tip.mismatch", "%s: the node's tip is %s (height %d), the most-work valid chain among delivered blocks (first seen wins ties) ends in %s (height %d, work %s)", when, hs(th), theight, hs(r.model.Hash), r.model.Height, r.model.CumWork.String())
 		return
 	}
@@ -489,6 +521,9 @@ func (r *run) deliver(bi int, when string) {
 		}
 		r.status[hh] = 1
 		r.out.Probe("accepted", 1)
+		if len(blk.Label) > 3 && blk.Label[:3] == "ok-" {
+			r.out.Probe("accepted_boundary:"+blk.Label, 1)
+		}
 	case stage == "check" && maybeLater:
 		// parent unknown to the node
 		if r.status[ln.Parent.Hash] == 1 {
@@ -522,6 +557,10 @@ func (r *run) deliver(bi int, when string) {
 		}
 	}
 	if err == nil {
+		if ln.Parent != nil && r.status[ln.Parent.Hash] == 2 {
+			r.viol("deliver.child-of-refused-accepted", "%s: block %s was accepted although its parent %s had been refused (%s): the refused block must not have entered the block index", when, hs(hh), hs(ln.Parent.Hash), ln.Parent.Clause)
+			return
+		}
 		if tooNew {
 			r.viol("c05.time-too-new", "%s: block %s with timestamp %d accepted while the node's clock is %d (more than two hours ahead)", when, hs(hh), blk.H.Time, r.now)
 			return
